@@ -146,7 +146,7 @@ impl Property for C07 {
         vec!["ground truth by construction; ring sound".into()]
     }
     fn cases(tier: Tier) -> u64 {
-        tier.pick(5_000, 200_000)
+        tier.pick(8_000, 200_000)
     }
     fn strategy(_tier: Tier) -> BoxedStrategy<Spec> {
         let cfg = Cfg { min_steps: 1, max_steps: 3, max_owners: 1, max_threshold: 4, two_digests: true, ..Cfg::basic() };
